@@ -649,10 +649,13 @@ func applyPipe(x *xfer.XferPipe, o Op) {
 		x.Reset()
 	case "use":
 		if x.Len() <= 8 {
-			p, err := x.OnPack([]byte("payload"))
-			if err == nil {
-				x.OnUnpack(p)
-			}
+			func() {
+				defer func() { recover() }()
+				p, err := x.OnPack([]byte("payload"))
+				if err == nil {
+					x.OnUnpack(p)
+				}
+			}()
 		}
 	default:
 		panic("xferpipe op " + o.Name)
@@ -662,12 +665,19 @@ func applyPipe(x *xfer.XferPipe, o Op) {
 func pipeFullSnap(x *xfer.XferPipe) []KV {
 	out := pipeSnap("XferPipe", x)
 	if x.Len() <= 8 {
-		p, err := x.OnPack([]byte("the payload the payload the payload"))
-		out = append(out, KV{"OnPack", fmt.Sprintf("%q/%v", p, err)})
-		if err == nil {
-			u, err := x.OnUnpack(append([]byte(nil), p...))
-			out = append(out, KV{"OnUnpack", fmt.Sprintf("%q/%v", u, err)})
-		}
+		func() {
+			defer func() {
+				if p := recover(); p != nil {
+					out = append(out, KV{"OnPack/OnUnpack", fmt.Sprintf("PANIC: %v", p)})
+				}
+			}()
+			p, err := x.OnPack([]byte("the payload the payload the payload"))
+			out = append(out, KV{"OnPack", fmt.Sprintf("%q/%v", p, err)})
+			if err == nil {
+				u, err := x.OnUnpack(append([]byte(nil), p...))
+				out = append(out, KV{"OnUnpack", fmt.Sprintf("%q/%v", u, err)})
+			}
+		}()
 	}
 	return out
 }
